@@ -20,6 +20,10 @@ func main() {
 		c29Worker()
 		return
 	}
+	if os.Getenv("CTRL_ROLE") == "l2self" {
+		l2Self()
+		return
+	}
 	vk.Main("ctrl", map[string]func(){
 		"C11": c11,
 		"C29": c29,
